@@ -23,6 +23,11 @@ func init() {
 }
 
 func checkC12(c *Ctx) {
+	// errcheck-style baseline: a newly discarded error in the package is a dropped protocol/validation step
+	c.checkErrorDiscipline("errors.no-new-dropped-error", "internal/encoding", map[string]string{
+		"(*Decoder).Close|io.Closer.Close": "closing the input after decoding (read side)",
+		"isOpenAPI|cue.Value.String": "detection heuristic: a non-string simply is not OpenAPI",
+	})
 	const ep = "internal/encoding"
 	enc := c.fn(ep, "(*Encoder).Encode")
 	g := c.graph(enc)
